@@ -126,6 +126,25 @@ class Interp(object):
             fields.append(Field.for_types("nid", [int], "node id"))
         return fields
 
+    def _message_type(self, t, decl):
+        """Type objects are module-level constants in real programs: reuse one object for equal definitions."""
+        if self.ser_hook is not None:
+            return MessageType(t, self._typed_fields(decl), "")
+        key = ("m", t, tuple(sorted(decl.items())))
+        cache = self.__dict__.setdefault("_types", {})
+        if key not in cache:
+            cache[key] = MessageType(t, self._typed_fields(decl), "")
+        return cache[key]
+
+    def _action_type(self, t, decl_start, decl_success):
+        if self.ser_hook is not None:
+            return ActionType(t, self._typed_fields(decl_start), self._typed_fields(decl_success, with_nid=False), "")
+        key = ("a", t, tuple(sorted(decl_start.items())), tuple(sorted(decl_success.items())))
+        cache = self.__dict__.setdefault("_types", {})
+        if key not in cache:
+            cache[key] = ActionType(t, self._typed_fields(decl_start), self._typed_fields(decl_success, with_nid=False), "")
+        return cache[key]
+
     @staticmethod
     def _expect(fields, decl):
         if not decl:
@@ -205,10 +224,10 @@ class Interp(object):
                     if ok:
                         self.api("Message.write", m3.write)
         elif style == "MessageType.log":
-            mt = MessageType(t, self._typed_fields(decl), "")
+            mt = self._message_type(t, decl)
             self.api("MessageType.log", mt.log, **fields)
         elif style == "MessageType.call.write":
-            mt = MessageType(t, self._typed_fields(decl), "")
+            mt = self._message_type(t, decl)
             ok, m = self.api("MessageType()", mt, **fields)
             if ok:
                 self.api("Message.write", m.write)
@@ -283,7 +302,7 @@ class Interp(object):
         elif style == "start_task":
             ok, action = self.api("start_task", start_task, action_type=t, **start)
         else:
-            at = ActionType(t, self._typed_fields(node["decl_start"]), self._typed_fields(node["decl_success"], with_nid=False), "")
+            at = self._action_type(t, node["decl_start"], node["decl_success"])
             if style == "ActionType":
                 ok, action = self.api("ActionType()", at, **start)
             else:
